@@ -209,8 +209,8 @@ def c04_ok(enc, sysm, st):
       last = ln == j + 1
       conj.append(z3.Implies(last, z3.And(tag == 1, kind == F.K_STOP, val == full)))
       conj.append(z3.Implies(z3.ULT(B.BV(j + 1), ln), tag == 0))
-    # production order per producer inside one consumer
-    for a in range(len(es) if ordered else 0):
+    # production order per producer inside one consumer (C04 states it: always required here)
+    for a in range(len(es)):
       for b in range(a + 1, len(es)):
         ja, ta, ka, va = es[a]; jb, tb, kb, vb = es[b]
         same_prod = z3.LShR(va - 1, 4) == z3.LShR(vb - 1, 4)
